@@ -20,6 +20,21 @@ int main(int argc, char **argv) {
   std::string path = (dir / "store.bin").string();
   KVStoreConfig cfg; cfg.enableBackgroundCompaction = false;
   std::string verdict;
+  if (in.count("BIG")) {
+    // K6 / RT1: every record the writer can produce must be accepted by the reader - the largest value validateKeyValue admits
+    try {
+      cfg.maxLogSizeBytes = 0xFFFFFFFFu;
+      { KVStore s(path, cfg); s.setString("before", "1"); s.set("big", std::vector<uint8_t>(MAX_VALUE_LENGTH, 7)); s.setString("after", "2"); }
+      { KVStore s(path, cfg);
+        if (!s.get("before")) verdict += " before MISSING;";
+        auto b = s.get("big"); if (!b || b->size() != MAX_VALUE_LENGTH) verdict += " big MISSING;";
+        if (!s.get("after")) verdict += " after MISSING;"; }
+    } catch (const std::exception &e) { verdict = std::string(" store threw: ") + e.what(); }
+    fs::remove_all(dir);
+    if (!verdict.empty()) replay_io::fail("RT1/K6 set(before); set(big, MAX_VALUE_LENGTH bytes); set(after) all acknowledged; clean close; reopen =>" + verdict);
+    replay_io::ok("a maximum-size value and the records after it survive a restart");
+    return 0;
+  }
   try {
     { KVStore s(path, cfg); s.set("a", V("1")); }                       // a valid record, acknowledged and cleanly closed
     { std::ofstream log(path + ".log", std::ios::binary | std::ios::app); log.write((const char *)tail.data(), (std::streamsize)tail.size()); }  // crash leftovers
